@@ -100,3 +100,8 @@ while i < len(matrix):
 
 print(book.report())
 print(book.best().name, squares, lookup, i)
+
+# dangling commas before a closer
+foo(alpha, beta, gamma,)
+trailing = [one, two, three,]
+bar({"k": 1, "l": 2,}, (p, q,),)
